@@ -1,4 +1,4 @@
-"""Line protocol to the Lean driver (`pvdriver`) and build/audit helpers.
+"""Line protocol to the Lean driver (`pv_<handler>` executables) and build/audit helpers.
 
 The model side of every correspondence check goes through `Driver.batch(lines)`: all request
 lines of a run are written to the driver's stdin, one reply line per request comes back.
@@ -7,7 +7,10 @@ import os, re, subprocess, sys, time
 
 VERIF = os.path.dirname(os.path.dirname(os.path.dirname(os.path.abspath(__file__))))
 LEAN_DIR = os.path.join(VERIF, 'lean')
-DRIVER = os.path.join(LEAN_DIR, '.lake', 'build', 'bin', 'pvdriver')
+BIN_DIR = os.path.join(LEAN_DIR, '.lake', 'build', 'bin')
+
+def driver_path(handler):
+  return os.path.join(BIN_DIR, 'pv_' + handler)
 ALLOWED_AXIOMS = {'propext', 'Classical.choice', 'Quot.sound'}
 
 class InfraError(Exception):
@@ -52,9 +55,13 @@ def lake_build(targets, timeout=3000):
   return r.returncode == 0, r.stdout, time.time() - t0
 
 class Driver:
-  def __init__(self):
-    if not os.path.exists(DRIVER):
-      raise InfraError(f'{DRIVER} missing (run MANIFEST.setup_cmd)')
+  """One native driver executable per handler family: `pv_<handler>`; request lines start with
+  the handler name (use `line(handler, ...)`)."""
+  def __init__(self, handler):
+    self.handler = handler
+    self.path = driver_path(handler)
+    if not os.path.exists(self.path):
+      raise InfraError(f'{self.path} missing (run MANIFEST.setup_cmd)')
     self.calls = 0
     self.lines = 0
 
@@ -62,17 +69,17 @@ class Driver:
     """Send all lines, return the reply lines (same length). `bad-op` replies raise InfraError."""
     if not lines: return []
     data = '\n'.join(lines) + '\n'
-    r = subprocess.run([DRIVER], input=data, stdout=subprocess.PIPE, stderr=subprocess.PIPE,
+    r = subprocess.run([self.path], input=data, stdout=subprocess.PIPE, stderr=subprocess.PIPE,
                        text=True, timeout=timeout)
     if r.returncode != 0:
-      raise InfraError(f'pvdriver exit {r.returncode}: {r.stderr[-2000:]}')
+      raise InfraError(f'{self.handler} driver exit {r.returncode}: {r.stderr[-2000:]}')
     out = r.stdout.split('\n')
     if out and out[-1] == '': out.pop()
     if len(out) != len(lines):
-      raise InfraError(f'pvdriver returned {len(out)} lines for {len(lines)} requests; stderr={r.stderr[-500:]}')
+      raise InfraError(f'{self.handler} driver returned {len(out)} lines for {len(lines)} requests; stderr={r.stderr[-500:]}')
     for req, rep in zip(lines, out):
       if rep == 'bad-op':
-        raise InfraError(f'pvdriver rejected request: {req[:300]}')
+        raise InfraError(f'{self.handler} driver rejected request: {req[:300]}')
     self.calls += 1; self.lines += len(lines)
     return out
 
